@@ -134,6 +134,14 @@ PLACEMENTS = {
     "parent-of-src": (".", "graphs", None, True),
     "parent-of-src2": ("../proj", "graphs", None, True),
     "src-symlinked-into-output": ("build", "graphs", "srclink", True),
+    # a second source directory several levels below the output directory (the first one is outside, so the run would go on)
+    "src2-deep-below-output": ("docs", "graphs", "vendor", True, "src\n    docs/vendor/lib"),
+    "src2-deep-below-output-dotdot": ("build/../docs", "graphs", "vendor", True, "docs/vendor/lib\n    src"),
+    # graph_dir pointed at directories that hold the user's files: FORD may add graph files there, nothing else
+    "graphdir-is-src": ("doc", "src", None, False),
+    "graphdir-is-media": ("doc", "media", None, False),
+    "graphdir-is-project-dir": ("doc", ".", None, False),
+    "graphdir-above-pages": ("doc", "pages", None, False),
 }
 
 OPTSETS = {
@@ -160,6 +168,8 @@ def make_sandbox(placement):
         (root / "proj" / "build").mkdir()
         shutil.move(str(root / "proj" / "src"), str(root / "proj" / "build" / "generated"))
         os.symlink("build/generated", root / "proj" / "src")
+    if PLACEMENTS[placement][2] == "vendor":
+        fordrun.write_tree(root, {"proj/docs/vendor/lib/vend.f90": "module vend\n!! vendored\nend module vend\n", "proj/docs/keep.txt": "keep\n"})
     if PLACEMENTS[placement][2] == "stale":
         fordrun.write_tree(root, {"proj/doc/src/old.f90": "! stale source copy\n", "proj/doc/module/old.html": "<html>old</html>", "proj/doc/index.html": "old",
                                   "proj/graphs/old.gv": "digraph {}"})
@@ -199,11 +209,12 @@ def run_ford(root, placement, optset, fail_at):
 
     fordrun._patch()
     fordrun.reset_state()
-    out_spec, graph_spec, _, _ = PLACEMENTS[placement]
+    out_spec, graph_spec, _, _, *more = PLACEMENTS[placement]
+    src_spec = more[0] if more else "src"
     out_spec = out_spec.format(root=root)
     graph_spec = graph_spec.format(root=root)
     opts = {k: v.format(graph_dir=graph_spec) for k, v in OPTSETS[optset].items()}
-    lines = ["project: sandbox", "src_dir: src", f"output_dir: {out_spec}", "preprocess: false", "search: false", "creation_date: DATE", "year: 2000"]
+    lines = ["project: sandbox", f"src_dir: {src_spec}", f"output_dir: {out_spec}", "preprocess: false", "search: false", "creation_date: DATE", "year: 2000"]
     for k, v in opts.items():
         lines = [l for l in lines if not l.startswith(k + ":")] + [f"{k}: {v}"]
     text = "\n".join(lines) + "\n\nFront page.\n"
@@ -249,7 +260,7 @@ def inside(path, roots):
 def run_case(st: Stats, placement, optset, fail_at):
     install_hook()
     root = make_sandbox(placement)
-    out_spec, graph_spec, _, refuse = PLACEMENTS[placement]
+    out_spec, graph_spec, _, refuse, *_more = PLACEMENTS[placement]
     proj = root / "proj"
     out_res = Path(os.path.realpath(os.path.join(proj, out_spec.format(root=root))))
     graph_res = Path(os.path.realpath(os.path.join(proj, graph_spec.format(root=root))))
@@ -262,7 +273,8 @@ def run_case(st: Stats, placement, optset, fail_at):
         while not q.exists():
             ancestors.add(str(q))
             q = q.parent
-    before = snapshot_outside(root, ([] if refuse else allowed) + [proj / "project.md"])
+    # graph_dir may receive new files, but what is already there belongs to the user: it stays in the snapshot
+    before = snapshot_outside(root, ([] if refuse else [out_res]) + [proj / "project.md"])
     settings, err, log, events, failed = run_ford(root, placement, optset, fail_at)
     st.evaluations += 1
     st.transitions += len(events)
@@ -290,7 +302,10 @@ def run_case(st: Stats, placement, optset, fail_at):
         if fail_at is None and err is not None:
             bad += 1
             st.violation("run-failed-without-fault", stratum, feats, inp, repr(err)[:300] + log[-200:], "run completes")
-    after = snapshot_outside(root, ([] if refuse else allowed) + [proj / "project.md"])
+    after = snapshot_outside(root, ([] if refuse else [out_res]) + [proj / "project.md"])
+    if not refuse and len(allowed) > 1:
+        for k in [k for k in after if k not in before and inside(k, [graph_res])]:
+            after.pop(k)  # files added to graph_dir by this run
     for a in ancestors:
         if after.get(a, ("dir",))[0] == "dir":
             after.pop(a, None)  # a missing parent of the output directory had to be created
@@ -351,8 +366,8 @@ def main(tier, replay_path=None):
     core.use_repo()
     if tier == "quick":
         combos = [(p, o) for p in PLACEMENTS for o in ("default",)] + [(p, "everything") for p in ("sibling", "via-symlink", "dotdot", "stale-output")] + \
-                 [("sibling", o) for o in OPTSETS]
-        fault_combos = [("sibling", "default"), ("via-symlink", "everything"), ("stale-output", "default"), ("inside-src", "assets"), ("dotdot", "pages"),
+                 [("sibling", o) for o in OPTSETS] + [(p, o) for p in PLACEMENTS if p.startswith("graphdir-") for o in ("graphs", "everything")]
+        fault_combos = [("graphdir-is-src", "graphs"), ("sibling", "default"), ("via-symlink", "everything"), ("stale-output", "default"), ("inside-src", "assets"), ("dotdot", "pages"),
                         ("sibling", "project-copy-subdir")]
     else:
         combos = [(p, o) for p in PLACEMENTS for o in OPTSETS]
